@@ -23,7 +23,7 @@ func init() {
 			"(c) WorkerPool / HandlerWorkerPool - 0-40 jobs, 1-8 workers, unlimited or bounded queue, jobs added before/after Start from several goroutines: accepted jobs run exactly once while the pool keeps running, refused ones never, failures reach Wait or the handler; " +
 			"(d) Cleanup service - 0-40 functions added from several goroutines, shutdown immediately after the last Add or after quiescence, by Close or parent cancel: each runs exactly once, after the shutdown began, failures in Wait. " +
 			"distinct_nontrivial = distinct (family, size class, adders, state/outcome mix or options, GOMAXPROCS) with >= 2 units",
-		assumptions: append([]string{"externally started services end on their own before the orchestrator is shut down (DESIGN 7f)", "pools are closed only after quiescence; Cleanup uses timeout 0 (no timers)"}, commonAssumptions...),
+		assumptions:   append([]string{"externally started services end on their own before the orchestrator is shut down (DESIGN 7f)", "pools are closed only after quiescence; Cleanup uses timeout 0 (no timers)"}, commonAssumptions...),
 		floorEvals:    200,
 		floorDistinct: 60,
 		quick:         []buildSpec{plain(8)},
